@@ -1364,8 +1364,9 @@ class TTNS(TTNBase):
             new_node.tensor = np.zeros(new_shape, dtype=dtype)
             indices1 = tuple(indices1)
             indices2 = tuple(indices2)
-            new_node.tensor[indices1] = tensor1
-            new_node.tensor[indices2] = tensor2
+            # the two blocks coincide when there is no virtual index to enlarge (one-node tree): sum them
+            new_node.tensor[indices1] += tensor1
+            new_node.tensor[indices2] += tensor2
             if node1 is self.root:
                 np.testing.assert_allclose(node1.qn, node2.qn)
                 new_node.qn = node1.qn.copy()
